@@ -184,7 +184,13 @@ func (c *SchedCase) RunSched(base string) SchedObs {
 		r.Run(SchedBound+10*time.Second, args...)
 		os.Remove(tracePath)
 	}
-	res := r.Run(SchedBound+5*time.Second, args...)
+	kill := SchedBound + 5*time.Second
+	if v := os.Getenv("VERIF_SCHED_KILL_S"); v != "" {
+		if n, err := time.ParseDuration(v + "s"); err == nil {
+			kill = n
+		}
+	}
+	res := r.Run(kill, args...)
 	obs := SchedObs{Log: res.Executed, Exit: res.Exit, WallMs: res.Wall.Milliseconds(), TimedOut: res.TimedOut}
 	obs.Events, obs.TraceOK = readSchedTrace(tracePath)
 	if res.Exit != 0 {
